@@ -311,7 +311,18 @@ pub fn craft(rng: &mut StdRng, c: &Committee, k: &mut Knowledge, correct: &[usiz
         // well-signed absurd values (C10 L6)
         _ => {
             let big = [u64::MAX, u64::MAX - 1, 1 << 63][rng.gen_range(0..3)];
-            let m = match rng.gen_range(0..5) {
+            let m = match rng.gen_range(0..7) {
+                5 => {
+                    // a certificate that claims the last possible view: the message's own view is "one after"
+                    let mut q = k.commit_qcs.values().next()?.clone();
+                    q.message.view.number = validator::ViewNumber(u64::MAX);
+                    s_new_view(sk, ReplicaNewView { justification: ProposalJustification::Commit(q) })
+                }
+                6 => {
+                    let mut q = k.timeout_qcs.values().next()?.clone();
+                    q.view.number = validator::ViewNumber(u64::MAX);
+                    s_proposal(sk, LeaderProposal { proposal_payload: None, justification: ProposalJustification::Timeout(q) })
+                }
                 0 => s_commit(sk, ReplicaCommit { view: c.view(big), proposal: BlockHeader { number: validator::BlockNumber(big), payload: payload(rng, "abs").hash() } }),
                 1 => s_timeout(sk, ReplicaTimeout { view: c.view(big), high_vote: Some(ReplicaCommit { view: c.view(big), proposal: BlockHeader { number: validator::BlockNumber(big), payload: payload(rng, "abs").hash() } }), high_qc: None }),
                 2 => {
